@@ -123,6 +123,12 @@ def gen_op(r: random.Random, model: A.Model, *, scoped_bias=0.15, failing_bias=0
             S, cls = (r.choice(fresh_names),), "fresh-single"
             if op == "rm":
                 cls = "missing"
+    if depth == 1 and nlayers == 0 and op == "set" and cls in ("fresh-single", "fresh-nested") and r.random() < 0.3:
+        # `@a` / `@m.n` where the body only has dotted bindings below that name (`a.b = …;`, `m.n.o = …;`): no binding of
+        # the body has that path, so one innermost layer is created like for any other fresh name
+        pre = sorted({e["path"][:k] for e in model.core if e["inh"] is None and len(e["path"]) > 1 for k in range(1, len(e["path"]))})
+        if pre:
+            S, cls = r.choice(pre), "fresh-attrpath-prefix"
     force = ()
     if pre_force is not None:
         force = pre_force
